@@ -40,6 +40,8 @@ type Val struct {
 	Idx   string     // VFieldPtr: element index for two-level memory (slice backing arrays, array cells)
 	Fn    *ssa.Function
 	Bind  []Val
+	AbsOf string // bound index variable of `forall i in S`: the slice term S it ranges over
+	AbsJ  string // ... and the absolute position (soff(S)+i) that is the actual bound SMT variable
 }
 
 func term(t, s string, ty types.Type) Val { return Val{K: VTerm, T: t, S: s, Ty: ty} }
